@@ -154,7 +154,9 @@ func epSignatureFor(in EPIn, format string, id int, d ocispec.Descriptor) []byte
 		attrs = append(attrs, signature.Attribute{Key: "io.cncf.notary.verificationPlugin", Critical: true, Value: 7})[len(attrs):]
 	}
 	key := fmt.Sprintf("ep|%s|%v|%s|%v|%s", format, in.Plugin != "none", d.Digest, in.Meta == "match", in.Extra)
-	env := cachedEnv(key, func() []byte { return SignEnvelope(EnvSpec{Format: format, Chain: ch, Payload: payload, ExtAttrs: attrs}) })
+	env := cachedEnv(key, func() []byte {
+		return SignEnvelope(EnvSpec{Format: format, Chain: ch, Payload: payload, ExtAttrs: attrs})
+	})
 	switch in.Sig {
 	case "valid":
 		return env
